@@ -2,7 +2,7 @@
 import os
 import re
 
-from ..mir import tymatch, Callee, last_seg, loc, op_int, op_place
+from ..mir import tymatch, Callee, last_seg, loc, op_const, op_int, op_place
 from .common import enum_fn_table, gates_of_value, success_edge_dominates
 
 EXPLANATION = (
@@ -569,6 +569,7 @@ def run(ctx):
                "length of the decoded key is compared with the key size" if used_len else
                "the slice returned by Base64::decode is discarded: a shorter key is silently zero-padded to the cipher's key size")
 
+    g8_document_reaches_the_types_unedited(ctx)
     # ---------------- G6 -----------------------------------------------------------------------
     start_fns = [b for b in prog.prod_bodies() if (b.defp.startswith("octo_squirrel::config::") or b.defp.startswith("octo_squirrel::log::")
                  or "::config::init" in b.defp or b.defp.endswith("config::{impl#0}::get_current") or "ClientConfig" in (b.impl_self_def or ""))
@@ -868,3 +869,47 @@ def _flat_place_ty(fb, pl):
         if e[0] == "field" and len(e) > 2 and e[2] in ("cipher", "kind"):
             return "CipherKind"
     return None
+
+
+def g8_document_reaches_the_types_unedited(ctx):
+    """G8: the *presence* of a section selects behaviour (`ssl` => TLS, `ws` => WebSocket, `quic` => QUIC listener; the code asks `is_some()`),
+    and whether a member is present is decided by the deserializer of the config types. Between the file and those types nothing may take
+    members out of the document: a pre-pass that deletes or empties members (`null`, `{}`, defaults) turns a section that selects a
+    transport into one that is not there, and the entry silently runs without that transport. Start-up functions: the config readers (the
+    functions that open the file and return the config types) and everything they splice in."""
+    prog = ctx.prog
+    readers = [b for b in prog.prod_bodies() if b.root == b.defp and not prog.is_test_body(b) and
+               any(w in b.local_ty(0) for w in ("ClientConfig", "ServerConfig")) and "Result<" in b.local_ty(0) and
+               any(c.name in ("File::open", "std::fs::read_to_string", "std::fs::read") or c.target.startswith("std::fs::") for (_, c, _) in prog.flat(b.defp).calls())]
+    ctx.floor("G8", "config readers (file -> config types)", 2, len(readers))
+    REMOVERS = ("retain", "remove", "remove_entry", "swap_remove", "shift_remove", "swap_remove_entry", "shift_remove_entry", "clear", "take", "truncate", "pop", "drain", "split_off")
+    for b in readers:
+        fb = prog.flat(b.defp, max_depth=6)
+        desers = [(blk, c, t) for (blk, c, t) in fb.calls() if c.target.startswith("serde_json::") and (c.method or "").startswith("from_")]
+        ctx.ob("G8", b.defp, "config-deserialized-from-the-file", loc(b.sp), bool(desers), f"{len(desers)} serde_json deserializer call(s) feed the config types")
+        # reached bodies (closures handed to iterators included): any call that removes members from a JSON document
+        seen, work, hits = set(), [b.root], []
+        while work:
+            r = work.pop()
+            if r in seen or prog.body(r) is None:
+                continue
+            seen.add(r)
+            for fam in prog.family(r):
+                for (blk, c, t) in fam.calls():
+                    tb = prog.body(c.target)
+                    if tb is not None and tb.defp.startswith("octo_squirrel") and len(seen) < 60:
+                        work.append(tb.root)
+                    for a in t["args"]:
+                        k = op_const(a)
+                        if k and "fn" in k:
+                            fb2 = prog.body(Callee(k["fn"]).target)
+                            if fb2 is not None:
+                                work.append(fb2.root)
+                    selfs = (c.self_s or "") + " " + " ".join(x.get("s", "") for x in c.args)
+                    if c.method in REMOVERS and ("serde_json" in selfs or "serde_json" in c.target):
+                        hits.append((fam, c, t))
+        for (fam, c, t) in hits:
+            ctx.ob("G8", fam.defp, f"document-members-are-not-removed:{c.method}", loc(t["sp"]), False,
+                   f"`{c.name}` takes members out of the JSON document on the way from the config file to the config types: which transport an entry uses is selected by the "
+                   "*presence* of its `ssl` / `ws` / `quic` section, so a section that is present but empty (every member optional) or null is silently turned into `absent` "
+                   "and the entry runs without the transport its configuration names")
